@@ -74,6 +74,11 @@ static void blk_ops(void) {
 		for (long i = 0; i < N; i++) { if (!vh_next()) continue; venv_reset(SA); venv_fail_at(i); memset(OB, 0xEE, 4096); lb = 0; int r = OPS[oi].f(OB, &lb); vh_eval(vh_mix(oi * 1000 + 100 + (uint64_t)i));
 			if (venv_cur()->failed == 0) continue; /* this run did not reach draw i (data-dependent retry count) */
 			if (r == 1) { snprintf(key, sizeof key, "C18:%s:reports-success-although-draw-failed", OPS[oi].name); vh_viol(key, "\"failed_draw\":%ld,\"of\":%ld,\"outlen\":%zu", i, N, lb); } }
+		/* a source stuck at all-ones for 120 consecutive draws starting at draw j (a range-checked candidate can then never be accepted: the bounded retry loops give
+		   up), under two different streams: an operation that still reports success must not have produced the same bytes under both (it would then depend on the
+		   stuck value alone - a nonce outside the range used as if it had been drawn). Draws that are plain octets (IV, salt) are not judged: there the source's octets ARE the output. */
+		for (long j = 0; j < N && j < 40; j++) { if (!vh_next()) continue; /* only draws that are range-checked candidates: one all-ones answer there makes the operation draw again */ venv_reset(SA); venv_ff_at(j); memset(OB, 0xEE, 4096); lb = 0; (void)OPS[oi].f(OB, &lb); if (venv_cur()->draws <= N) continue; venv_reset(SA); venv_ff_window(j, 120); memset(OB, 0xEE, 4096); lb = 0; int r1 = OPS[oi].f(OB, &lb); venv_reset(SB); venv_ff_window(j, 120); memset(OC, 0xEE, 4096); lc = 0; int r2 = OPS[oi].f(OC, &lc); vh_eval(vh_mix(oi * 1000 + 800 + (uint64_t)j));
+			if (r1 == 1 && r2 == 1 && lb == lc && lb && !memcmp(OB, OC, lb)) { snprintf(key, sizeof key, "C18:%s:same-output-under-different-streams-when-the-source-sticks-at-all-ones", OPS[oi].name); vh_viol(key, "\"stuck_from_draw\":%ld,\"outlen\":%zu", j, lb); } }
 		/* a candidate that is out of range forces a redraw: draw j answered with all-0xff octets, draw j+1 failing (retry loops must fail closed too) */
 		for (long j = 0; j < N && j < 48; j++) { if (!vh_next()) continue; venv_reset(SA); venv_ff_at(j); venv_fail_at(j + 1); memset(OB, 0xEE, 4096); lb = 0; int r = OPS[oi].f(OB, &lb); vh_eval(vh_mix(oi * 1000 + 600 + (uint64_t)j));
 			if (venv_cur()->failed == 0) continue; if (r == 1) { snprintf(key, sizeof key, "C18:%s:reports-success-although-redraw-failed", OPS[oi].name); vh_viol(key, "\"all_ff_draw\":%ld,\"failed_draw\":%ld,\"outlen\":%zu", j, j + 1, lb); } }
